@@ -55,11 +55,20 @@ func runC04(r *core.Run) (bool, string) {
 	r.Assume("go/parser and go/types agree with the Go specification on what the top-level declarations of a package are and which ones a declaration refers to")
 	r.Assume("an unquoted identifier that is neither declared by the Go package nor defined in the emitted file is a library name (Perennial), not a same-package reference")
 	setGoEnvInProcess()
+	// wall-clock per phase: information for whoever tunes the workload, never part of a verdict
+	phases := map[string]float64{}
+	phaseStart := time.Now()
+	phase := func(name string) {
+		phases[name] = float64(time.Since(phaseStart).Milliseconds()) / 1000
+		phaseStart = time.Now()
+		r.Set("phase_wall_seconds", phases)
+	}
 	bin, err := gooseBin(r)
 	if err != nil {
 		fmt.Fprintln(os.Stderr, err)
 		return false, "goose does not build: " + err.Error()
 	}
+	phase("1-build-goose")
 	skip := c04Skip()
 	if len(skip) > 0 {
 		r.Set("atoms_quarantined_by_VERIF_C04_SKIP", sortedKeys(skip))
@@ -77,6 +86,7 @@ func runC04(r *core.Run) (bool, string) {
 	directed := c04DirectedSets(skip)
 	// probe: an atom goose rejects is outside the accepted-package space; keep it out of the random compositions
 	rejectedAtoms := c04ProbeAtoms(r, bin, directed)
+	phase("2-probe-atoms")
 	if len(rejectedAtoms) > 0 {
 		r.Set("atoms_rejected_by_goose_left_out_of_random_sets", sortedKeys(rejectedAtoms))
 		for a := range rejectedAtoms {
@@ -94,6 +104,9 @@ func runC04(r *core.Run) (bool, string) {
 			r.Count("layouts_exhaustive_permutations", int64(len(lays)))
 		} else {
 			lays = familyLayouts(len(ds.Units))
+			if !r.Quick() && len(ds.Units) == 3 {
+				lays = exhaustiveLayouts(3)
+			}
 			r.Count("layouts_of_generated_families/"+ds.Family, int64(len(lays)))
 			r.Count("sets_of_generated_families/"+ds.Family, 1)
 		}
@@ -184,6 +197,7 @@ func runC04(r *core.Run) (bool, string) {
 		}
 	}
 	r.Set("declaration_sets", len(sets))
+	phase("3-go-side-analysis")
 
 	// ---- the directed sets in which a typing theorem would mention a same-package type are translated
 	// again with -typecheck (the theorems exist for functions, methods, constants and globals only)
@@ -282,6 +296,7 @@ func runC04(r *core.Run) (bool, string) {
 		c04Attribute(res.Stderr, batchJobs[b])
 	})
 
+	phase("4-translate-all-layouts")
 	// ---- judge: per set, layouts in order (the first judged layout is the reference of the metamorphic comparison)
 	bySet := map[*declSet][]*c04Job{}
 	for _, j := range jobs {
@@ -400,6 +415,7 @@ func runC04(r *core.Run) (bool, string) {
 	}
 	core.Parallel(nDirected, 16, func(i int) { judgeSet(order[i]) })
 	core.Parallel(len(order)-nDirected, 16, func(i int) { judgeSet(order[nDirected+i]) })
+	phase("5-judge")
 	{
 		nc, nu := 0, 0
 		tks, rks := map[string]bool{}, map[string]bool{}
@@ -811,38 +827,47 @@ func c04Metamorphic(r *core.Run, ds *declSet, refJob, j *c04Job, ref, cur map[st
 
 // c04ProbeAtoms translates every directed atom once (as generated) and returns the atoms goose does not accept.
 func c04ProbeAtoms(r *core.Run, bin string, directed []*declSet) map[string]bool {
-	dir := filepath.Join(r.Scratch, "c04probe")
-	if err := writeModule(dir); err != nil {
-		return nil
-	}
-	var js []*c04Job
-	for _, ds := range directed {
-		j := &c04Job{set: ds, rel: ds.ID + "_probe", lay: layout{Files: []layoutFile{{Name: "m_f0.go", Units: seq(len(ds.Units))}}}}
-		writePkg(dir, j.rel, ds.render(j.lay))
-		js = append(js, j)
-	}
-	for name, files := range c04HelperPkgs {
-		writePkg(dir, name, files)
-	}
-	res := runGoose(bin, dir, filepath.Join(dir, "out"), 5*time.Minute, nil, nil, "./...")
-	r.Count("goose_invocations", 1)
-	out := map[string]bool{}
-	if isCrash(res) || res.TimedOut {
-		for _, j := range js {
-			one := runGoose(bin, dir, filepath.Join(dir, "out"), time.Minute, nil, nil, "./"+j.rel)
-			r.Count("goose_invocations", 1)
-			if isCrash(one) || one.TimedOut {
-				j.status = "crashed"
-				continue
-			}
-			c04Attribute(one.Stderr, []*c04Job{j})
+	const perProbe = 200
+	nb := (len(directed) + perProbe - 1) / perProbe
+	all := make([][]*c04Job, nb)
+	core.Parallel(nb, 16, func(b int) {
+		dir := filepath.Join(r.Scratch, fmt.Sprintf("c04probe%02d", b))
+		if err := writeModule(dir); err != nil {
+			return
 		}
-	} else {
-		c04Attribute(res.Stderr, js)
-	}
-	for _, j := range js {
-		if j.status != "" {
-			out[j.set.Atoms[0]] = true
+		var js []*c04Job
+		for i := b * perProbe; i < len(directed) && i < (b+1)*perProbe; i++ {
+			ds := directed[i]
+			j := &c04Job{set: ds, rel: ds.ID + "_probe", lay: layout{Files: []layoutFile{{Name: "m_f0.go", Units: seq(len(ds.Units))}}}}
+			writePkg(dir, j.rel, ds.render(j.lay))
+			js = append(js, j)
+		}
+		for name, files := range c04HelperPkgs {
+			writePkg(dir, name, files)
+		}
+		res := runGoose(bin, dir, filepath.Join(dir, "out"), 5*time.Minute, nil, nil, "./...")
+		r.Count("goose_invocations", 1)
+		if isCrash(res) || res.TimedOut {
+			for _, j := range js {
+				one := runGoose(bin, dir, filepath.Join(dir, "out"), time.Minute, nil, nil, "./"+j.rel)
+				r.Count("goose_invocations", 1)
+				if isCrash(one) || one.TimedOut {
+					j.status = "crashed"
+					continue
+				}
+				c04Attribute(one.Stderr, []*c04Job{j})
+			}
+		} else {
+			c04Attribute(res.Stderr, js)
+		}
+		all[b] = js
+	})
+	out := map[string]bool{}
+	for _, js := range all {
+		for _, j := range js {
+			if j.status != "" {
+				out[j.set.Atoms[0]] = true
+			}
 		}
 	}
 	return out
